@@ -312,6 +312,12 @@ def gen_real_case(rng):
     opened together whose junctions may repeat the state (a capture restarted mid-track)"""
     if rng.random() < 0.35:
         return dict(kind='real', fmt='v1', seed=rng.randrange(2 ** 31), n=rng.randint(11, 14))
+    if rng.random() < 0.3:
+        # a v3 / v2 file whose target sensor goes blank (or unparsable) in mid-observation and comes back
+        T = rng.randint(6, 12)
+        cuts = sorted(rng.sample(range(1, T), 3))
+        return dict(kind='real', fmt=rng.choice(['v3', 'v3', 'v2']), seed=rng.randrange(2 ** 31), T=T, cuts=cuts,
+                    blank=rng.choice(['', 'not a target at all']), order=rng.sample([0, 1, 2], 3))
     nparts = rng.randint(2, 4)
     parts = []
     last_state = None
@@ -347,6 +353,16 @@ def run_real(ctx, c):
                 scans.append(('slew', tg[k % 2], 1, 'track'))
                 scans.append(('scan', tg[k % 2], 1 + k % 2, 'track'))
             syn = h5synth.make_v1(os.path.join(tmp, 'v1.h5'), random.Random(c['seed']), scans=scans, F=2, n_ants=1)
+            d = syn.dataset
+            which = ['scans', 'compscans']
+        elif c['fmt'] in ('v3', 'v2'):
+            names = [h5synth.TARGETS[i] for i in c['order']]
+            tgts = [(-1.0, names[0]), (c['cuts'][0] - 0.5, c['blank']), (c['cuts'][1] - 0.5, names[1]),
+                    (c['cuts'][2] - 0.5, names[2])]
+            act = [(-1.0, 'track')] + [(k - 0.5 + 0.01 * j, 'track' if j % 2 else 'slew') for j, k in enumerate(c['cuts'])]
+            make = h5synth.make_v3 if c['fmt'] == 'v3' else h5synth.make_v2
+            syn = make(os.path.join(tmp, 'f.h5'), random.Random(c['seed']), T=c['T'], F=2, n_ants=1, targets=tgts,
+                       activity=act)
             d = syn.dataset
             which = ['scans', 'compscans']
         else:
